@@ -3,7 +3,7 @@ from fractions import Fraction
 
 from ..common import rng
 from ..drivers import emitters, programs, targeted
-from ._twin import replay_programs, run_programs
+from ._twin import replay_programs, run_programs, run_suite
 from ._util import replay_calls, run_calls
 
 
@@ -58,6 +58,9 @@ def check(run, tier):
                                       big_factor=6)
         progs.append(p)
     run_programs(run, progs)
+
+    # the repository's own test-suite, recorded and judged step by step
+    run_suite(run)
 
 
 def replay(run, rp):
